@@ -662,6 +662,12 @@ def specs():
          Seq(["Bitfield::flush", "W:Bitfield::flush", "MerkleTree::flush", "W:MerkleTree::flush", "Oplog::flush(2=p2)", "W:Oplog::flush"],
              forbid=["W:?", "Oplog::flush", "Oplog::flush(2=true)", "Oplog::flush(2=false)"])),
     ]
+    S["C02"].append(
+        ("core::new", "open/replay: oplog opened and its infos flushed first, then tree and bitfield opened; per replayed entry: nodes added, bitfield update immediately followed by the contiguous-length update, truncate followed by the header update and the tree commit",
+         Table(merge({(0, "Oplog::open"): 0, (0, "W:Oplog::open"): 1, (1, "MerkleTree::open"): 1, (1, "Bitfield::open"): 2, (2, "Bitfield::open"): 2,
+                      (2, "MerkleTree::add_node"): 2, (2, "Bitfield::update"): 3, (3, "update_contiguous_length"): 2,
+                      (2, "MerkleTree::truncate"): 4, (4, "MerkleTree::truncate"): 4, (4, "Oplog::update_header_with_changeset"): 5, (5, "MerkleTree::commit"): 2}),
+               ok={2}, err={0, 1, 2, 3, 4, 5}, alpha=["W:?", "Bitfield::set_range", "Oplog::append_changeset(3=false)", "Oplog::flush(2=p2)"])))
     # ---- C13: events only after the commit (and after the periodic flush, whose failure makes the
     # call fail), upgrade before have, nothing on a failing path, get event only for a missing block
     S["C13"] = [
